@@ -86,6 +86,9 @@ B("c07-list-to-tuple", "C07", CFD + "__init__.py", 'if family in ["heavy", "tota
 
 # ----------------------------------------------------------------------------- C02
 CCF = CFD + "coupling_constants.py"
+M("c02-ckm-string-unsquared", "C02", CFD + "coupling_constants.py", "        return cls(np.power(np.array(elems, dtype=float), 2))", "        return cls(np.array(elems, dtype=float))", expect="CKM given as string")
+M("c02-ckm-string-columnwise", "C02", CFD + "coupling_constants.py", "        return cls(np.power(np.array(elems, dtype=float), 2))", "        return cls(np.power(np.array(elems, dtype=float), 2).reshape(3, 3).T)", expect="CKM given as string")
+B("c02-ckm-string-square-by-product", "C02", CFD + "coupling_constants.py", "        return cls(np.power(np.array(elems, dtype=float), 2))", "        values = np.array([float(e) for e in elems])\n        return cls(values * values)")
 M("c02-pol-sign", "C02", CCF, "                    projectile_v + pol * projectile_a\n", "                    projectile_v - pol * projectile_a\n", expect="C02.weight")
 M("c02-interference-factor", "C02", CCF, "            w_phZ = (\n                2\n                * self.leptonic_coupling", "            w_phZ = (\n                1\n                * self.leptonic_coupling", expect="C02.weight")
 M("c02-eta-zz", "C02", CCF, "            return eta_phZ**2\n", "            return eta_phZ\n", expect="C02.weight")
